@@ -135,7 +135,9 @@ def _solve_one(job):
     ob, ents, ob2 = items[oi]
     rec = {"oid": ob.oid, "kind": ob.kind, "label": ob.label, "note": ob.note, "where": ob.where, "kf": None}
     # first attempt: 45 s wall per pass (obligations of the unchanged tree take seconds); the retry gets 120 s
-    tmo = 300000 if rlimit >= BASE_RLIMIT[0] * 10 else (120000 if rlimit > BASE_RLIMIT[0] else 45000)
+    # the last attempt (4x budget, marked by the odd limit) is cut by the deterministic resource limit only (wall clock
+    # 30 min): its verdict does not depend on how many other checks share the cores
+    tmo = 1800000 if rlimit == BASE_RLIMIT[0] * 4 + 1 else (120000 if rlimit > BASE_RLIMIT[0] else 45000)
     if ents:
         check_obligation(vc, ob2, rlimit=rlimit, timeout_ms=tmo)
         rec.update(status="known-finding", backend=None, time=0.0, model=None)
@@ -349,9 +351,9 @@ def run_check(prop, args, seed, t0):
                     for (fi, oi, rec) in sres]
         bresults = bres_async.get()
         # last resort for obligations of the committed baseline that are still `unknown`: they would be reported as
-        # violations, so they get one more attempt with ten times the budget, one at a time, on an otherwise idle
-        # machine (the bounded stand-ins have finished) -- a verdict must not depend on how busy the cores were
-        last = [(fi, oi, BASE_RLIMIT[0] * 10, both) for (fi, oi, rec), (_fi, _oi, _rl, both) in
+        # violations, so they get one more attempt with four times the resource budget and no effective wall-clock limit,
+        # one at a time (the bounded stand-ins have finished) -- a verdict must not depend on how busy the cores were
+        last = [(fi, oi, BASE_RLIMIT[0] * 4 + 1, both) for (fi, oi, rec), (_fi, _oi, _rl, both) in
                 [(x, y) for x, y in zip(sres, sjobs)]
                 if oi >= 0 and (rec.get("status") == "unknown" or (rec.get("kf") or {}).get("status") == "unknown")
                 and _PREP[fi][3][oi][0].oid in baseline]
@@ -362,7 +364,7 @@ def run_check(prop, args, seed, t0):
         if last and not certain:
             import multiprocessing as _mp
             for job in last:
-                say("note: last attempt for %s (still unknown; 10x budget, alone)" % _PREP[job[0]][3][job[1]][0].oid)
+                say("note: last attempt for %s (still unknown; 4x resource budget, no wall-clock limit, alone)" % _PREP[job[0]][3][job[1]][0].oid)
                 with _mp.get_context("fork").Pool(1) as solo:
                     fi, oi, rec = solo.apply(_solve_one, (job,))
                 sres = [(f2, o2, dict(rec, retried=True)) if (f2, o2) == (fi, oi) else (f2, o2, r2) for (f2, o2, r2) in sres]
